@@ -21,7 +21,10 @@ PROP = dict(
         "translators X1/X2 (regenerated descriptors desc_<S>, integer width facts) and the hand model of the "
         "encoder (shared with C03), tied to the code by the exact correspondence lines tlb.enc / tlb.dec",
         "spec ops tlb.spec / tlb.extmsg compare the cell produced by the REAL tlb.Marshal with specChunk directly "
-        "(not with the model of the implementation)",
+        "(not with the model of the implementation); struct values reach the spec BY FIELD NAME (byName picks "
+        "them by the schema's field names), so exchanging two same-typed Go fields yields a failing input",
+        "the alias table Agree/BlockTlb.nameAliases (seqno~msg_seqno, rawmessages~messages, sign~signature, "
+        "message~body)",
     ],
     assumptions=[
         "ideal bit-list level (C06 owns the refinement of boc.BitString); minBitsRequired's de Bruijn table is "
@@ -45,7 +48,9 @@ PROP = dict(
                "(two's complement, 1..64), writeBigUint_spec / writeBigInt_spec (every width), varuint_minimal "
                "(minimal byte length, every n), limUint_width, unary_spec, sumtag_spec. Structure layer: "
                "impl_eq_spec — for every regenerated descriptor accepted by the decidable matcher against the "
-               "transcribed schema, the encoder appends exactly the chunk the schema prescribes, for every "
+               "transcribed schema (field order BY NAME: the Go field at each position must carry the schema's "
+               "field name modulo snake/Camel case and a 4-entry alias table; widths; tags; references), the "
+               "encoder appends exactly the chunk the schema prescribes, for every "
                "in-domain value (induction on descriptors, 13 hand-written codecs included); impl_eq_spec_<S> is "
                "decided by the kernel for 11 structures on the descriptors regenerated from the Go source on "
                "every run (a swapped field / wrong width / wrong tag breaks it); ext_message_layout for "
